@@ -94,4 +94,3 @@ package erro
 //@   props C13
 //@   assigns nothing
 //@   ensures typed_as_named: result != nil && typeof(result) == typeid(*TypeNotFound)
-
